@@ -296,7 +296,7 @@ impl Check for C13 {
             Phase { name: "API agreement on mutated / rejected inputs", cases: scale(if q { 20000 } else { 600000 }, b), exhaustive: false },
             Phase { name: "encode direction: to_vec vs serialise(to_cbor_value), tagged likewise", cases: scale(if q { 20000 } else { 600000 }, b), exhaustive: false },
             Phase { name: "all byte strings of length <= 2: API agreement at every entry point", cases: 65536 + 256 + 1, exhaustive: true },
-            Phase { name: "boundaries: CBOR nesting depth 240-262 in an extra value (both API layers), inputs of 1 MiB +- 1 and 2 MiB with suffixes, tagged API agreement incl. tag numbers aliasing under truncation", cases: 23 + 4 + 6, exhaustive: true },
+            Phase { name: "boundaries: CBOR nesting depth 240-262 in an extra value (both API layers), inputs of 1 MiB +- 1 and 2 MiB with suffixes, tagged API agreement incl. tag numbers aliasing under truncation, inputs of 4 MiB +- 1, 8 MiB and 16 MiB with a few suffixes and prefixes", cases: 23 + 4 + 6 + 6, exhaustive: true },
         ]
     }
     fn run_case(&self, ctx: &mut Ctx, phase: usize, idx: u64) {
@@ -374,6 +374,31 @@ impl Check for C13 {
                         *p = MProt { bytes: Some(gen::prot_bytes(&mut ctx.rng, &p.header, 255)), header: p.header.clone() };
                     }
                 }
+                if ctx.rng.chance(1, 5) {
+                    // NaNs with a payload, a sign or the signalling pattern: both layers must write the
+                    // same bytes for them, whatever those are
+                    let nan = Item::Float(f64::from_bits(*ctx.rng.pick(&[0x7ff8_0000_0000_0001u64, 0xfff8_0000_0000_0000, 0x7ff0_0000_0000_0001, 0x7ffc_0000_0000_0000, 0x7ff8_0000_2000_0000, 0x7ff8_0400_0000_0000, 0xfff4_0000_0000_0000])));
+                    match &mut v {
+                        MVal::Header(h) => h.rest.push((crate::model::MLabel::Int(-70002), nan)),
+                        MVal::Claims(c) => {
+                            if ctx.rng.coin() {
+                                c.exp = Some(crate::model::MTime::Float(nan));
+                            } else {
+                                c.rest.push((crate::model::MLabel::Int(-70002), Item::Array(vec![nan])));
+                            }
+                        }
+                        MVal::Key(k) => k.params.push((crate::model::MLabel::Int(-70002), nan)),
+                        MVal::Sign1(m) => m.unprot.rest.push((crate::model::MLabel::Int(-70002), nan)),
+                        MVal::Mac0(m) => {
+                            if m.prot.bytes.is_none() {
+                                m.prot.header.rest.push((crate::model::MLabel::Int(-70002), nan));
+                            }
+                        }
+                        MVal::Encrypt0(m) => m.unprot.rest.push((crate::model::MLabel::Text("nan".into()), nan)),
+                        _ => {}
+                    }
+                    ctx.count("encode-agreement-with-nan-payload");
+                }
                 encode_agreement(ctx, &v);
             }
             6 => {
@@ -441,6 +466,42 @@ impl Check for C13 {
                             }
                         }
                     }
+                } else if idx >= 33 {
+                    // beyond 2 MiB: a few suffixes and prefixes only (each decode costs milliseconds)
+                    let n = [(4usize << 20) - 1, 4 << 20, (4 << 20) + 1, 8 << 20, 16 << 20, (16 << 20) + 7][(idx - 33) as usize];
+                    let mut b = vec![0x84, 0x40, 0xa0];
+                    rcbor::put_head(&mut b, 2, n as u64, &mut Style::canonical());
+                    b.extend(std::iter::repeat(0x33).take(n));
+                    b.push(0x40);
+                    ctx.nontrivial(n as u64 ^ 0x1306);
+                    if capi::from_slice(Ty::Sign1, &b).is_err() {
+                        ctx.harness_errors.push("C13: large Sign1 not accepted".into());
+                        return;
+                    }
+                    ctx.count("accepted-inputs");
+                    for suffix in [vec![0x00u8], vec![0xff], vec![0x40], vec![0xa0, 0xa0]] {
+                        ctx.eval();
+                        let mut x = b.clone();
+                        x.extend_from_slice(&suffix);
+                        match capi::from_slice(Ty::Sign1, &x) {
+                            Err(EK::Extraneous) => {}
+                            Err(k) => ctx.violation(&format!("C13/suffix-wrong-error/Sign1/{}", k.name()), format!("a {}-byte accepted input followed by {} extra byte(s) is rejected with {} instead of ExtraneousData", b.len(), suffix.len(), k.name()), J::obj(vec![("bytes", J::UInt(b.len() as u64))])),
+                            Ok(_) => ctx.violation("C13/suffix-accepted/Sign1", format!("a {}-byte accepted input followed by {} extra byte(s) is still accepted", b.len(), suffix.len()), J::obj(vec![("bytes", J::UInt(b.len() as u64))])),
+                        }
+                        let mut tx = vec![0xd2];
+                        tx.extend_from_slice(&x);
+                        ctx.eval();
+                        if capi::from_tagged_slice(Ty::Sign1, &tx).is_ok() {
+                            ctx.violation("C13/suffix-accepted/Sign1(tagged)", format!("a {}-byte tagged input followed by {} extra byte(s) is still accepted", tx.len(), suffix.len()), J::obj(vec![("bytes", J::UInt(tx.len() as u64))]));
+                        }
+                    }
+                    for cut in [b.len() - 1, b.len() - 2, b.len() / 2, 5] {
+                        ctx.eval();
+                        if capi::from_slice(Ty::Sign1, &b[..cut]).is_ok() {
+                            ctx.violation("C13/prefix-accepted/Sign1", format!("a proper prefix ({} of {} bytes) of an accepted input is accepted", cut, b.len()), J::obj(vec![("cut", J::UInt(cut as u64))]));
+                        }
+                    }
+                    api_agreement(ctx, Ty::Sign1, &b);
                 } else if idx < 27 {
                     let n = [(1usize << 20) - 1, 1 << 20, (1 << 20) + 1, 2 << 20][(idx - 23) as usize];
                     let mut b = vec![0x84, 0x40, 0xa0];
